@@ -393,6 +393,9 @@ def _native_isolated(eng, ob, repo):
 _FAILS = {}
 
 
+_SECOND = {}
+
+
 def _discharge_one(eng, ob, budget, repo):
     if ob.kind == "ground" and ob.backend == "ground" and ob.verdict in ("proved", "refuted"):
         # decided by exact evaluation in the pack: keep verdict and the detail (names the offending member/writer)
@@ -406,6 +409,18 @@ def _discharge_one(eng, ob, budget, repo):
     backends.discharge(ob, budget)
     if ob.verdict != "proved":
         _FAILS[id(eng)] = fails + 1
+    elif budget.get("second_opinion") and ob.backend == "z3" and ob.time >= budget.get("second_opinion_min_s", 0.05) \
+            and _SECOND.get(id(eng), 0) < budget.get("second_opinion_per_task", 25):
+        # thorough tier: an independent solver looks at a sample of the obligations z3 needed real work for.  cvc5 saying
+        # `sat` on a formula z3 called `unsat` is a solver disagreement: reported (verdict undecided), never hidden
+        _SECOND[id(eng)] = _SECOND.get(id(eng), 0) + 1
+        try:
+            v2, dt2, info2 = backends.cvc5_prove(ob, budget.get("second_opinion_s", 10))
+        except Exception as ex:
+            v2, dt2, info2 = "undecided", 0, "cvc5 error %s" % ex
+        ob.meta["second_opinion"] = info2 if v2 != "proved" else "cvc5 agrees"
+        if "cvc5 sat" in str(info2):
+            ob.verdict, ob.detail = "undecided", "solver disagreement: z3 unsat, " + str(info2)
     native = None
     if fails >= 3:
         pass
@@ -422,7 +437,7 @@ def _discharge_one(eng, ob, budget, repo):
                 native = {"confirmed": None, "info": {"error": "%s: %s" % (type(ex).__name__, ex),
                                                       "trace": traceback.format_exc()[-1200:]}}
     return {"verdict": ob.verdict, "backend": ob.backend, "time": ob.time, "detail": ob.detail, "model": ob.model,
-            "native": native}
+            "native": native, "second": ob.meta.get("second_opinion")}
 
 
 def discharge_all(eng, obs, budget, repo, par=4):
@@ -432,6 +447,7 @@ def discharge_all(eng, obs, budget, repo, par=4):
         for i in todo:
             r = _discharge_one(eng, obs[i], budget, repo)
             obs[i].meta["native"] = r["native"]
+            obs[i].meta["second_opinion"] = r.get("second")
         return
     k = min(par, len(todo))
     kids = []
@@ -473,6 +489,7 @@ def discharge_all(eng, obs, budget, repo, par=4):
             ob = obs[int(si)]
             ob.verdict, ob.backend, ob.time, ob.detail, ob.model = d["verdict"], d["backend"], d["time"], d["detail"], d["model"]
             ob.meta["native"] = d["native"]
+            ob.meta["second_opinion"] = d.get("second")
     for i in todo:
         if obs[i].verdict is None:
             obs[i].verdict = "undecided"
@@ -524,6 +541,7 @@ def run_task(task, repo=None, budget=None, engine_setup=None):
                 "name": ob.name, "verdict": ob.verdict, "backend": ob.backend, "time": round(ob.time, 4),
                 "kind": ob.kind, "line": ob.where, "detail": ob.detail[:500], "model": ob.model,
                 "goal": term_text(ob.goal), "nhyps": len(ob.hyps), "native": ob.meta.get("native"),
+                "second_opinion": ob.meta.get("second_opinion"),
             })
         res["functions"] = {k: list(v) for k, v in eng.functions_seen.items()}
         if task.fn and task.fn not in res["functions"]:
